@@ -69,7 +69,7 @@ PLAN['C06'] = {
          core('core_undo2', ['mod', 'undo', 'prove'], 6, 3, stack=2, und=2, probe=1),
          core('core_undo3', ['mod', 'undo'], 6, 2, stack=3, und=3),
          core('core_undo_wide', ['mod', 'undo'], 16, 5, stack=1, und=1, minn=9, initlive=3, invariants=False,
-              x='only=undo', timeout=20000)]),
+              x='only=undo,rows=0;3;63', timeout=20000)]),
     'rule': 'spec/Core.tla with the undo stack in the state: from every reachable state every block is applied, undone '
             '(Pollard.Undo / MapPollard.Undo with the specification\'s canonical proof, deleted hashes and previous roots) '
             'and the behaviour continues from the restored state with every block again (redo on the same or another '
@@ -77,7 +77,7 @@ PLAN['C06'] = {
             'GetHash on every position, provable set, proofs of subsets) must equal the expectation of the earlier '
             'abstract state. Non-trivial: the line contains an undo; distinct by (witness history, step).',
     'bounds': {'quick': 'depth 1: n<=7, adds 0..3; depth 2 (two undos, with Prove of every subset): n<=5, adds 0..2',
-               'thorough': 'depth 1: n<=8, adds 0..4; depth 2: n<=6, adds 0..3; depth 3: n<=6, adds 0..2; wide: every state with 9..16 leaves of which at most 3 are live is an initial state, blocks with 0..5 adds, undo, redo'},
+               'thorough': 'depth 1: n<=8, adds 0..4; depth 2: n<=6, adds 0..3; depth 3: n<=6, adds 0..2; wide (TotalRows 0, 3, 63): every state with 9..11 leaves of which at most 3 are live is an initial state, one block with 0..5 adds, undo, redo'},
     'exhaustive': {'quick': True, 'thorough': True},
     'assumptions': ['free term algebra for hashes',
                     'partial map forests delete only leaves first verified with remember (as the property states)',
